@@ -388,6 +388,47 @@ func (w *World) readSetObligations(wantProps map[string]bool, re *regexp.Regexp)
 				continue
 			}
 		}
+		if rs.Field == "#callsonce" {
+			o := &Obligation{Name: "callsonce:" + rs.Name, Kind: "callsonce", Fn: "callsonce:" + rs.Name, Props: rs.Props, ex: &Exec{w: w}, Structural: true}
+			var bad []string
+			for _, n := range rs.Allowed {
+				fn := w.funcByName[n]
+				if fn == nil {
+					bad = append(bad, n+": no such function")
+					continue
+				}
+				loops := findLoops(w, fn)
+				cnt := 0
+				for _, b := range fn.Blocks {
+					for _, in := range b.Instrs {
+						c, ok := in.(*ssa.Call)
+						if !ok || c.Call.IsInvoke() {
+							continue
+						}
+						switch c.Call.Value.(type) {
+						case *ssa.Function, *ssa.Builtin, *ssa.MakeClosure:
+							continue
+						}
+						cnt++
+						for _, li := range loops {
+							if li.body[b] {
+								bad = append(bad, n+": the user-function call is inside a loop")
+							}
+						}
+					}
+				}
+				if cnt != 1 {
+					bad = append(bad, fmt.Sprintf("%s: %d calls through a function value (expected exactly 1)", n, cnt))
+				}
+			}
+			if len(bad) == 0 {
+				o.Status, o.Solver, o.Goal = "proved", "ssa-scan", "true"
+			} else {
+				o.Status, o.Solver, o.Goal, o.Output = "failed", "ssa-scan", "false", strings.Join(bad, "; ")
+			}
+			out = append(out, o)
+			continue
+		}
 		k := strings.LastIndex(rs.Field, ".")
 		tn, fld := rs.Field[:k], rs.Field[k+1:]
 		allowed := func(name string) bool {
